@@ -164,7 +164,7 @@ func c09BufObject(v ssa.Value, depth int) ssa.Value {
 			return x
 		}
 	case *ssa.Call:
-		if CalleeOf(x) == "(*sync.Pool).Get" {
+		if n := CalleeOf(x); n == "(*sync.Pool).Get" || n == "bytes.NewBuffer" {
 			return x
 		}
 	case *ssa.TypeAssert:
@@ -269,7 +269,7 @@ const (
 	bufStale
 )
 
-var bufContentName = []string{"empty", "holding what this call wrote", "possibly holding bytes of an earlier call"}
+var bufContentName = []string{"empty", "holding what this call wrote", "that may hold bytes that are not this call's (an earlier call's, or initial contents)"}
 
 type bufState struct {
 	set     bool // the object exists on this path
@@ -717,6 +717,14 @@ func (a *c09Bufs) analyse(s *c09Scratch, taken int) []bufViolation {
 	if _, isAlloc := s.obj.(*ssa.Alloc); isAlloc {
 		start = bufEmpty
 	}
+	if c, isCall := s.obj.(*ssa.Call); isCall && CalleeOf(c) == "bytes.NewBuffer" {
+		// a buffer made on the spot: empty when made over no bytes, otherwise it starts with contents
+		// that are not this call's encodings
+		start = bufStale
+		if args := CallArgs(c); len(args) == 1 && c09EmptyBytes(args[0]) {
+			start = bufEmpty
+		}
+	}
 	viol, exits := a.flow(s, s.fn, bufState{}, start)
 	nDeferred := 0
 	for _, ev := range s.events[s.fn] {
@@ -843,6 +851,24 @@ func c09PoolOf(ci ssa.CallInstruction) *ssa.Global {
 	return nil
 }
 
+// c09EmptyBytes: v is a []byte of length 0 by construction — nil, make([]byte, 0, n), new([n]byte)[:0].
+func c09EmptyBytes(v ssa.Value) bool {
+	isZero := func(v ssa.Value) bool {
+		c, isC := v.(*ssa.Const)
+		return isC && c.Value != nil && c.Value.Kind() == constant.Int && constant.Sign(c.Value) == 0
+	}
+	switch y := v.(type) {
+	case *ssa.Const:
+		return y.Value == nil
+	case *ssa.MakeSlice:
+		return isZero(y.Len)
+	case *ssa.Slice:
+		_, fresh := y.X.(*ssa.Alloc)
+		return fresh && y.High != nil && isZero(y.High) && (y.Low == nil || isZero(y.Low))
+	}
+	return false
+}
+
 // c09PoolNew decides what the pool's New yields: "" when every value it returns is an untouched
 // new bytes.Buffer; otherwise what is wrong.
 func c09PoolNew(r *Run, g *ssa.Global) string {
@@ -911,19 +937,7 @@ func c09PoolNew(r *Run, g *ssa.Global) string {
 			args := CallArgs(x)
 			okArg := false
 			if CalleeOf(x) == "bytes.NewBuffer" && len(args) == 1 {
-				isZero := func(v ssa.Value) bool {
-					c, isC := v.(*ssa.Const)
-					return isC && c.Value != nil && c.Value.Kind() == constant.Int && constant.Sign(c.Value) == 0
-				}
-				switch y := args[0].(type) {
-				case *ssa.Const:
-					okArg = y.Value == nil
-				case *ssa.MakeSlice: // make([]byte, 0, n)
-					okArg = isZero(y.Len)
-				case *ssa.Slice: // the same with a constant n: new([n]byte)[:0]
-					_, fresh := y.X.(*ssa.Alloc)
-					okArg = fresh && y.High != nil && isZero(y.High) && (y.Low == nil || isZero(y.Low))
-				}
+				okArg = c09EmptyBytes(args[0])
 			}
 			if !okArg {
 				return "New returns " + r.D.D(x) + ": a buffer with initial contents"
@@ -963,7 +977,7 @@ func c09R12(r *Run, mf *c09fn) {
 			return s
 		}
 		s := &c09Scratch{obj: obj, fn: fn, events: map[*ssa.Function][]bufEvent{}}
-		if c, ok := obj.(*ssa.Call); ok {
+		if c, ok := obj.(*ssa.Call); ok && CalleeOf(c) == "(*sync.Pool).Get" {
 			s.pool = c09PoolOf(c)
 		}
 		objs[obj] = s
@@ -1032,7 +1046,7 @@ func c09R12(r *Run, mf *c09fn) {
 	// (2) every Put of a pool the codec takes from, anywhere in the module
 	pools := map[*ssa.Global]bool{}
 	for _, s := range order {
-		if _, isGet := s.obj.(*ssa.Call); isGet {
+		if c, isCall := s.obj.(*ssa.Call); isCall && CalleeOf(c) == "(*sync.Pool).Get" {
 			if s.pool == nil {
 				undecided++
 				r.Fail(keyOf(s, "origin"), r.Where(s.obj.(ssa.Instruction)), "undecided: Get on a pool that is not a package-level variable")
@@ -1148,6 +1162,8 @@ func c09R12(r *Run, mf *c09fn) {
 		nObjs++
 		if _, isAlloc := s.obj.(*ssa.Alloc); isAlloc {
 			r.Pass(keyOf(s, "origin"), where, "a bytes.Buffer variable of the function: empty whenever its declaration executes")
+		} else if c, isCall := s.obj.(*ssa.Call); isCall && CalleeOf(c) == "bytes.NewBuffer" {
+			r.Pass(keyOf(s, "origin"), where, "made on the spot by bytes.NewBuffer (its initial contents are judged as contents)")
 		} else if s.pool != nil {
 			r.Pass(keyOf(s, "origin"), where, "taken from the pool "+ShortPkg(s.pool.Pkg.Pkg.Path())+"."+s.pool.Name()+" (emptiness: see pool["+s.pool.Name()+"])")
 		} else {
@@ -1157,7 +1173,7 @@ func c09R12(r *Run, mf *c09fn) {
 		vb := a.analyse(s, bufStale)
 		var stale, other []bufViolation
 		for _, v := range vb {
-			if v.kind == "stale" {
+			if v.kind == "stale" && s.pool != nil {
 				stale = append(stale, v)
 			} else if v.kind != "put-nonempty" {
 				other = append(other, v)
